@@ -6,6 +6,7 @@ use anyhow::{anyhow, Context, Result};
 use sha2::{Digest, Sha256};
 use std::collections::HashMap;
 use std::fs;
+use std::io::Write;
 use std::path::{Path, PathBuf};
 
 /// Apply a single patch to a file
@@ -104,8 +105,18 @@ fn apply_single_patch(file_path: &Path, patch_content: &str) -> Result<()> {
     // Write the result to a temp file in the same directory and rename it over the file, as
     // apply does: a crash in the middle must not leave the user's file truncated
     let temp_path = file_path.with_extension(format!("{}.renamify.tmp", std::process::id()));
-    fs::write(&temp_path, &result_to_write)
-        .with_context(|| format!("Failed to write file: {}", file_path.display()))?;
+    {
+        // create_new: an existing entry of that name (the user's own file, a symlink, a leftover)
+        // is never truncated or written through
+        let mut temp_file = fs::OpenOptions::new()
+            .write(true)
+            .create_new(true)
+            .open(&temp_path)
+            .with_context(|| format!("Failed to create temp file {}", temp_path.display()))?;
+        temp_file
+            .write_all(result_to_write.as_bytes())
+            .with_context(|| format!("Failed to write file: {}", file_path.display()))?;
+    }
 
     // Restore original permissions
     fs::set_permissions(&temp_path, original_permissions)
